@@ -153,6 +153,10 @@ def build(case):
         rho[0] = float(rng.uniform(0.05, 1.0))
     if rho_h is not None:
         rho[b.index(rho_h)] = float(rng.uniform(0.1, 0.9))
+    if case["sampling"] == "mixed" and m >= 2 and rho[0] > 0 and rv is None and case["seed"] % 3 == 0 and not any(0 < t <= b[1] for t in th):
+        # no psi-sampling in the most recent epoch (its only samples are the rho-sampled tips at the present): s = 0 there, a usual set-up
+        s = np.array(s, dtype=float)
+        s[0] = 0.0
     return {"tip_heights": th, "root": root, "internal": ih, "origin": origin, "b": b, "R": R.tolist(), "delta": delta.tolist(), "s": s.tolist(),
             "r": None if rv is None else rv.tolist(), "rho": rho, "names": names, "topo": topo, "rho_h": rho_h, "m": m, "style": style, "short_rho": case["seed"] % 2 == 0}
 
@@ -461,6 +465,9 @@ def run_json_option(case, d, rng, V, C, detail):
         return first
 
     def judge(got, expected, what, tag=""):
+        if expected == float("-inf"):
+            C["trees_of_density_zero_not_judged"] = C.get("trees_of_density_zero_not_judged", 0) + 1  # (a psi-sampled tip where psi = 0)
+            return
         C["json_option_checks"] += 1
         if not np.isfinite(got) or abs(got - expected) > 1e-6 * max(1.0, abs(expected)):
             V.append(tt.viol("C09:json:%s%s" % (opt, tag), "%s: model from JSON gives %.12g, the behaviour the option names gives %.12g" % (what, got, expected), **detail))
